@@ -9,7 +9,8 @@
   close <conn>                                    → ghost | gone: the client closes its socket (ghost: blocked and unnoticed, stays registered)
   luaquirks                                       → the conversion switches of Gen/Lua.lean (`Gen.luaQuirksSeen`) the script replies are converted with
   req <conn> <now> <obs> plain <arg-hex>…         → <reply> # <served> # <accesses> # <spec reply> # <spec served> # same|differ # <sel>
-  req <conn> <now> _ script <0|1> <cmd>/<cmd>…    → (same)       cmd = arg-hex joined by `,`; 1 = EVALSHA, 0 = EVAL
+  req <conn> <now> _ script <0|1> <forms> <cmd>/<cmd>… → (same)  cmd = arg-hex joined by `,`; 1 = EVALSHA, 0 = EVAL; forms = one letter per
+                                                    call: `c` redis.call, `p` redis.pcall
       reply: a frame (errors as `( e )`) or `noreply`; served: `.` or `<conn>:<frame>` joined by ` ;; `;
       accesses: `.` or `<path>:<db>:<sel>` joined by `,` (what the code variant did);
       the state follows the code variant (current switches); the spec reply / post-state are those of `Switches.fixed`
@@ -62,12 +63,12 @@ def showServed (xs : List (Nat × Frame)) : String :=
 /-- Lua conversion where the reply came out of a script -/
 def convReply (pre : Conn) (r : Req) (f : Frame) : Frame :=
   match r with
-  | .script _ _ => if pre.inMulti then f else luaConv f
+  | .script _ _ _ => if pre.inMulti then f else luaConv f
   | .plain a _ =>
     if nameOf a == "EXEC" && pre.inMulti then
       match f with
       | .array xs => .array ((xs.zip pre.queue).map fun p => match p.2 with
-          | .script _ _ => luaConv p.1
+          | .script _ _ _ => luaConv p.1
           | _ => p.1)
       | g => g
     else f
@@ -128,6 +129,11 @@ def sameOn (seen : List Nat) (a b : State) : Bool :=
 def parseScript (s : String) : Option (List (List Bytes)) :=
   (s.splitOn "/").mapM fun c => (c.splitOn ",").mapM ofHex
 
+/-- `c` = redis.call, `p` = redis.pcall, one letter per call -/
+def parseForms (s : String) (n : Nat) : Option (List Bool) :=
+  let cs := s.toList
+  if cs.length != n || !cs.all (fun c => c == 'c' || c == 'p') then none else some (cs.map (· == 'p'))
+
 def doReq (st : St) (c now : Nat) (r : Req) : St × String :=
   let s0 := { st.s with log := [] }
   let pre := s0.conns c
@@ -168,12 +174,15 @@ def step (st : St) (ws : List String) : St × String :=
     match c.toNat?, now.toNat?, args.mapM ofHex, (if obs == "_" then some none else (parseHexList obs).map some) with
     | some c, some now, some args, some obs => doReq st c now (.plain args obs)
     | _, _, _, _ => (st, "bad-op")
-  | ["req", c, now, "_", "script", sha, cmds] =>
+  | ["req", c, now, "_", "script", sha, forms, cmds] =>
     match c.toNat?, now.toNat?, parseScript cmds with
     | some c, some now, some cmds =>
-      if sha == "0" then doReq st c now (.script false cmds)
-      else if sha == "1" then doReq st c now (.script true cmds)
-      else (st, "bad-op")
+      match parseForms forms cmds.length with
+      | some pcs =>
+        if sha == "0" then doReq st c now (.script false cmds pcs)
+        else if sha == "1" then doReq st c now (.script true cmds pcs)
+        else (st, "bad-op")
+      | none => (st, "bad-op")
     | _, _, _ => (st, "bad-op")
   | ["dumpall", now] =>
     match now.toNat? with
